@@ -4,13 +4,28 @@ import SafeHtml.Oracle.Hist
 namespace SafeHtml.Ops.Hist
 open SafeHtml
 
+/-- `tmpl.files`: ParseFiles / ParseGlob / ParseFS on real files against the Parse history the documentation equates
+    them with (`expect` is set when the text/template parser rejects one of the files: the call returns that error) -/
 def model (op : String) (a : List Bytes) : Option String :=
-  if op.startsWith "tmpl.hist" then Ops.Tmpl.model "tmpl.hist" a else none
+  if op.startsWith "tmpl.hist" then Ops.Tmpl.model "tmpl.hist" a
+  else match op, a with
+    | "tmpl.files", [_via, _files, _name, _data, h, expect] =>
+      if expect.isEmpty then some (((Ops.Tmpl.runLines (Ops.Tmpl.historyLines h)).map (·.1)).getLast?.getD "")
+      else some (SafeHtml.Model.Tmpl.strOfBytes expect)
+    | _, _ => none
 
 def oracle (op : String) (a : List Bytes) (real : List String) : Option String :=
   match op.splitOn ".", a with
   | ["tmpl", "hist", which], [h] => some (Oracle.Hist.run which h real)
   | ["tmpl", "hist"], [_] => some "pass"
+  | ["tmpl", "files"], _ =>
+    -- C08: the file-reading entry points return their problems as errors
+    match real with
+    | r :: _ =>
+      if Oracle.Hist.isPanic r then some "fail:file-entry-point-panicked-or-hung"
+      else if r == "err-with-template" || r == "nil-without-error" then some "fail:file-entry-point-error-and-result-disagree"
+      else some "pass"
+    | [] => some "pass"
   | _, _ => none
 
 end SafeHtml.Ops.Hist
